@@ -12,7 +12,10 @@ META = {
     "level_text": "props/C11.v: one side as a state machine over its entry points (close(), the peer's close request, EOF/failure while reading in serve, EOF/failure while writing "
                   "from inside a dispatch; under wait or under serve_all); for EVERY history of entry points and every outcome of the transport calls they make: the disconnect hook "
                   "runs at most once, a side that reports closed has run it exactly once and released everything, a side that closes / is told to close / meets the failure while "
-                  "serving is closed and clean when control returns, close is idempotent; the refutation for a tree whose serve() does not close when EOFError escapes _dispatch (F6). "
+                  "serving is closed and clean when control returns, close is idempotent - all of it also when the service's disconnect hook raises (the hook outcome is a parameter "
+                  "of every theorem; c11_raising_hook_refuted is the counterpart for a tree whose _cleanup does not clear in a finally, F25); the refutation for a tree whose "
+                  "serve() does not close when EOFError escapes _dispatch (F6). NOT proved: the second sentence of the property (pending/blocked/later requests fail with EOFError, "
+                  "none hangs) - that half is decided by the harness only (exhaustive single-fault enumeration plus scheduler scenarios). "
                   "The guarded shapes of close/_cleanup/_handle_close/serve/serve_all are regenerated from the source; the harness injects a failure at every transport call and at "
                   "byte offsets inside packets for a family of workloads and all close orders, checks the property on both real sides and replays each side's entry points in the model.",
     "level_note": "Trusted: Coq kernel, pygen, extraction+driver, the fault-injecting MemStream (a failing call closes the stream and raises EOFError, as SocketStream does; the peer then "
@@ -37,12 +40,18 @@ class VClock:
     def sleep(self, d): self.now += d
 
 
+class HookError(Exception):
+    """what a misbehaving service's on_disconnect raises"""
+
+
 class Svc(rpyc.Service):
-    def __init__(self, name):
-        self.name, self.hooks, self.kept = name, 0, []
+    def __init__(self, name, hook_raises=False):
+        self.name, self.hooks, self.kept, self.hook_raises = name, 0, [], hook_raises
 
     def on_disconnect(self, conn):
         self.hooks += 1
+        if self.hook_raises:
+            raise HookError("on_disconnect of %s" % self.name)
 
     def exposed_add(self, a, b): return a + b
     def exposed_mk(self): return [1, 2, 3]
@@ -78,7 +87,7 @@ class FStream(MemStream):
         return MemStream.write(self, data)
 
 
-def make_pair(plan, clock):
+def make_pair(plan, clock, hook_raises=False):
     sa, sb = FStream("A"), FStream("B")
     sa.peer, sb.peer = sb, sa
     for s in (sa, sb):
@@ -92,8 +101,8 @@ def make_pair(plan, clock):
             return False
         return f
     sa.fault, sb.fault = fault_for(sa), fault_for(sb)
-    A = Connection(Svc("A"), Channel(sa), config={"sync_request_timeout": 5})
-    B = Connection(Svc("B"), Channel(sb), config={"sync_request_timeout": 5, "allow_public_attrs": True})
+    A = Connection(Svc("A", hook_raises), Channel(sa), config={"sync_request_timeout": 5})
+    B = Connection(Svc("B", hook_raises), Channel(sb), config={"sync_request_timeout": 5, "allow_public_attrs": True})
     log = {"A": [], "B": []}
     disp_eof = {"A": False, "B": False}
     must = {"A": set(), "B": set()}
@@ -158,13 +167,13 @@ WORKLOADS = ["sync", "async", "nested", "refs", "fire"]
 CLOSES = ["AB", "BA", "A", "B", "none"]
 
 
-def run_case(workload, closes, plan):
+def run_case(workload, closes, plan, hook_raises=False):
     clock = VClock()
     old_time = rpyc.lib.time
     rpyc.lib.time = clock
     orig_hc = Connection._handle_close
     try:
-        A, B, sa, sb, log, must, checks, instrument = make_pair(plan, clock)
+        A, B, sa, sb, log, must, checks, instrument = make_pair(plan, clock, hook_raises)
         serving_all = {"B": 0}
         instrument("A", A, A._local_root, lambda: 0)
         instrument("B", B, B._local_root, lambda: 1 if serving_all["B"] else 0)
@@ -189,7 +198,12 @@ def run_case(workload, closes, plan):
                 B.serve(0)
                 return True
             except EOFError:
-                B.close()               # serve_all: except EOFError: pass; finally: self.close()
+                try:
+                    B.close()           # serve_all: except EOFError: pass; finally: self.close()
+                except HookError:
+                    pass
+                return False
+            except HookError:           # the serving thread dies with its service's own exception
                 return False
             finally:
                 serving_all["B"] -= 1
@@ -208,7 +222,7 @@ def run_case(workload, closes, plan):
                 else:
                     A.serve(0)
                 return True
-            except EOFError:
+            except (EOFError, HookError):
                 return False
 
         idle = {"n": 0}
@@ -242,6 +256,8 @@ def run_case(workload, closes, plan):
                 results.append((label, "timeout", None))
             except Hang:
                 results.append((label, "hang", None))
+            except HookError:            # the thread whose wait ran the cleanup gets its own service's exception: not a hang, not a value
+                results.append((label, "hook-error" if hook_raises else "exc:HookError", None))
             except Exception as e:
                 results.append((label, "exc:" + type(e).__name__, None))
         local_obj = [9]
@@ -273,6 +289,8 @@ def run_case(workload, closes, plan):
                     conn.close()
                 except EOFError:
                     results.append(("close" + who, "EOFError-from-close", None))
+                except HookError:
+                    results.append(("close" + who, "hook-error-from-close" if hook_raises else "exc-from-close:HookError", None))
                 except Exception as e:
                     results.append(("close" + who, "exc-from-close:" + type(e).__name__, None))
                 # let the other side notice
@@ -292,8 +310,11 @@ def run_case(workload, closes, plan):
                 try:
                     conn.close()
                     again[nm] = (before == snapshot(conn, svc))
+                except HookError:
+                    again[nm] = "hook ran again"
                 except Exception as e:
                     again[nm] = "raised " + type(e).__name__
+        svcA.hook_raises = svcB.hook_raises = False      # connections never closed in this run are closed by __del__: keep that quiet
         return {"results": results, "final": final, "log": log, "must": {k: sorted(v) for k, v in must.items()}, "checks": checks,
                 "io": {"A": list(sa.io_log), "B": list(sb.io_log)}, "hit": sa.hit or sb.hit, "again": again}
     finally:
@@ -307,9 +328,10 @@ def gen_facts():
         txt = open(C.COQ + "/gen/Gen_lifecycle.v").read()
         f = dict(re.findall(r"Definition (\w+) : bool := (true|false)\.", txt))
         return [f.get(k) == "true" for k in ("close_checks_closed_first", "close_sets_closed_before_io", "close_cleanup_in_finally", "close_swallows_eof",
-                                             "cleanup_hook_once_guard", "serve_read_eof_closes", "serve_dispatch_eof_closes", "serve_all_finally_closes")]
+                                             "cleanup_hook_once_guard", "cleanup_clears_in_finally", "serve_read_eof_closes", "serve_dispatch_eof_closes",
+                                             "serve_all_finally_closes")]
     except OSError:
-        return [True] * 8
+        return [True] * 9
 
 
 def clean(sn):
@@ -372,16 +394,23 @@ def run(ctx):
                         offs = [0, 1, 7, 13] if ctx.quick else [0, 1, 2, 4, 5, 6, 7, 9, 13, 20, 40]
                         for k in offs:
                             plans.append(Fault(side, i, k))
-            for p in plans:
-                out = run_case(wl, cl, p)
-                case = {"workload": wl, "closes": cl, "fault": [p.side, p.index, p.partial]}
-                ctx.case((wl, cl, p.side, p.index, p.partial), nontrivial=out["hit"], sample={"case": case, "final": out["final"], "results": out["results"]})
+            hk_base = run_case(wl, cl, None, True)
+            oracle(ctx, {"workload": wl, "closes": cl, "fault": None, "hook_raises": True}, hk_base)
+            ctx.case((wl, cl, None, "hook"), nontrivial=True, sample={"workload": wl, "closes": cl, "hook_raises": True, "final": hk_base["final"], "results": hk_base["results"]})
+            for nm in ("A", "B"):
+                mcases.append([facts, 1, hk_base["log"][nm]]); meta.append(({"workload": wl, "closes": cl, "fault": None, "hook_raises": True}, nm, hk_base["final"][nm]))
+            for p, hk in [(p, False) for p in plans] + [(p, True) for p in plans if p.partial is None]:
+                out = run_case(wl, cl, p, hk)
+                case = {"workload": wl, "closes": cl, "fault": [p.side, p.index, p.partial], "hook_raises": hk}
+                ctx.case((wl, cl, p.side, p.index, p.partial, hk), nontrivial=out["hit"], sample={"case": case, "final": out["final"], "results": out["results"]})
+                if hk:
+                    ctx.count("disconnect-hook-raises")
                 ctx.count("fault:" + (base["io"][p.side][p.index] if p.index < len(base["io"][p.side]) else "?") + ("-partial" if p.partial is not None else ""))
                 for label, kind, ok in out["results"]:
                     ctx.count("outcome:" + kind)
                 oracle(ctx, case, out)
                 for nm in ("A", "B"):
-                    mcases.append([facts, out["log"][nm]]); meta.append((case, nm, out["final"][nm]))
+                    mcases.append([facts, int(hk), out["log"][nm]]); meta.append((case, nm, out["final"][nm]))
     # threads blocked waiting when the stream ends (the multi-threaded part of "nobody hanging"): the scheduler scenarios of C13
     try:
         import random
@@ -415,7 +444,7 @@ def run(ctx):
             real = [f["closed"], f["hooks"], f["has_root"], f["chan_open"]]
             # the channel flag of a side that never ended is not part of the model's concern unless an entry point touched it
             if got[:3] != real[:3] or (real[0] and got[3] != real[3]):
-                ctx.tie_broken("correspondence:final-side-state", "case %s side %s entries %s model %s real %s" % (case, nm, mcases[meta.index((case, nm, f))][1], got, real))
+                ctx.tie_broken("correspondence:final-side-state", "case %s side %s entries %s model %s real %s" % (case, nm, mcases[meta.index((case, nm, f))][2], got, real))
 
 
 def replay(ctx, rep):
@@ -430,6 +459,6 @@ def replay(ctx, rep):
             ctx.violation("waiter-hangs-after-end-of-stream", cs, observed=out["deadlock"][:300], expected="EOFError", what="a blocked waiter stayed blocked forever after the stream ended")
         return
     p = Fault(*cs["fault"]) if cs.get("fault") else None
-    out = run_case(cs["workload"], cs["closes"], p)
+    out = run_case(cs["workload"], cs["closes"], p, bool(cs.get("hook_raises")))
     oracle(ctx, cs, out)
     ctx.case(("replay", str(cs)), True)
